@@ -1,0 +1,135 @@
+//go:build verif
+
+// Package processorverifprobe is a steerable processor used only by the external verification
+// harness (build tag `verif`). Its output condition, its request/response action and a
+// transactional-context write/read are chosen per transaction by the header
+// "x-vp-<lower-cased processor key>" of the message being processed.
+//
+// Header value: fields separated by '|':
+//
+//	c=<condition>                  output condition name (default "")
+//	a=early:<status>:<body>        request direction: answer the request (like GenerateResponse)
+//	a=modreq:<k>=<v>,<k>=<v>       request direction: ModifyRequestAction with these headers
+//	a=modhdr:<k>=<v>,...           request direction: ModifyHeadersAction
+//	a=modresp:<k>=<v>,...          response direction: ModifyResponseAction
+//	a=noop                         NoOpAction (default on both directions)
+//	t=set | t=get                  write / read back the transaction id in the transactional context
+package processorverifprobe
+
+import (
+	"lunar/engine/actions"
+	publictypes "lunar/engine/streams/public-types"
+	streamtypes "lunar/engine/streams/types"
+	"lunar/toolkit-core/verifhook"
+	"strconv"
+	"strings"
+)
+
+const ctxKey = "verif-probe-txn"
+
+type probe struct {
+	name string
+}
+
+func NewProcessor(metaData *streamtypes.ProcessorMetaData) (streamtypes.ProcessorI, error) {
+	return &probe{name: metaData.Name}, nil
+}
+
+func (p *probe) GetName() string { return p.name }
+
+func (p *probe) GetRequirement() *streamtypes.ProcessorRequirement {
+	return &streamtypes.ProcessorRequirement{}
+}
+
+func parseKV(s string) map[string]string {
+	res := map[string]string{}
+	if s == "" {
+		return res
+	}
+	for _, kv := range strings.Split(s, ",") {
+		parts := strings.SplitN(kv, "=", 2)
+		if len(parts) == 2 {
+			res[parts[0]] = parts[1]
+		}
+	}
+	return res
+}
+
+func (p *probe) Execute(_ string, apiStream publictypes.APIStreamI) (streamtypes.ProcessorIO, error) {
+	out := streamtypes.ProcessorIO{Type: publictypes.StreamTypeAny}
+	isReq := apiStream.GetType().IsRequestType()
+	if isReq {
+		out.ReqAction = &actions.NoOpAction{}
+	} else {
+		out.RespAction = &actions.NoOpAction{}
+	}
+	spec, _ := apiStream.GetHeader("x-vp-" + strings.ToLower(p.name))
+	for _, field := range strings.Split(spec, "|") {
+		switch {
+		case strings.HasPrefix(field, "c="):
+			out.Name = field[2:]
+		case strings.HasPrefix(field, "t="):
+			p.touchContext(field[2:], apiStream)
+		case strings.HasPrefix(field, "a="):
+			act := field[2:]
+			switch {
+			case strings.HasPrefix(act, "early:") && isReq:
+				parts := strings.SplitN(act, ":", 3)
+				status, _ := strconv.Atoi(parts[1])
+				body := ""
+				if len(parts) > 2 {
+					body = parts[2]
+				}
+				out.ReqAction = &actions.EarlyResponseAction{
+					Status: status, Body: body, Headers: map[string]string{"x-vp-by": p.name},
+				}
+				out.Type = publictypes.StreamTypeResponse
+			case strings.HasPrefix(act, "modreq:") && isReq:
+				out.ReqAction = &actions.ModifyRequestAction{HeadersToSet: parseKV(act[7:])}
+			case strings.HasPrefix(act, "modhdr:") && isReq:
+				out.ReqAction = &actions.ModifyHeadersAction{HeadersToSet: parseKV(act[7:])}
+			case strings.HasPrefix(act, "modresp:") && !isReq:
+				out.RespAction = &actions.ModifyResponseAction{
+					HeadersToSet: parseKV(act[8:]),
+					Body:         apiStream.GetBody(),
+					Status:       apiStream.GetResponse().GetStatus(),
+				}
+			}
+		}
+	}
+	return out, nil
+}
+
+func (p *probe) touchContext(op string, apiStream publictypes.APIStreamI) {
+	id := apiStream.GetID()
+	lunarCtx := apiStream.GetContext()
+	if lunarCtx == nil {
+		verifhook.Emit("probe.ctx", p.name, id, op, "no-lunar-context")
+		return
+	}
+	txnCtx := lunarCtx.GetTransactionalContext()
+	if txnCtx == nil {
+		verifhook.Emit("probe.ctx", p.name, id, op, "nil")
+		return
+	}
+	switch op {
+	case "set":
+		if err := txnCtx.Set(ctxKey, id); err != nil {
+			verifhook.Emit("probe.ctx", p.name, id, op, "error")
+			return
+		}
+		verifhook.Emit("probe.ctx", p.name, id, op, "ok")
+	case "get":
+		val, err := txnCtx.Get(ctxKey)
+		if err != nil {
+			verifhook.Emit("probe.ctx", p.name, id, op, "missing")
+			return
+		}
+		got, _ := val.(string)
+		if got != id {
+			verifhook.Emit("probe.ctx", p.name, id, op, "other:"+got)
+			return
+		}
+		verifhook.Emit("probe.ctx", p.name, id, op, "ok")
+	}
+}
